@@ -22,6 +22,8 @@ def plan(tier, seed):
         specs.append({'part': 'paths', 'n': 640 if tier == 'quick' else 8400})
     for i in range(4 if tier == 'quick' else 20):
         specs.append({'part': 'beam', 'n': 15 if tier == 'quick' else 60})
+    for i in range(2 if tier == 'quick' else 8):
+        specs.append({'part': 'families', 'n': 150 if tier == 'quick' else 1500})
     for i in range(3 if tier == 'quick' else 8):
         specs.append({'part': 'points', 'n': 4000 if tier == 'quick' else 60000})
     return specs
@@ -31,14 +33,21 @@ def centre_vec(a5, geo, c):
     return geo.ll_to_vec(*a5.cell_to_lonlat(c))
 
 
-def run_path(a5, geo, c, r, ctx, cls, choose):
+def run_path(a5, geo, c, r, ctx, cls, choose, jumps=False):
     chain = [(c, r, centre_vec(a5, geo, c))]
     depth = min(29, r + 12)
     cur, cr = c, r
     while cr < depth:
-        kids = a5.cell_to_children(cur)
-        cur = kids[choose(len(kids))]
-        cr += 1
+        if jumps and cr + 2 <= depth and ctx.rnd.random() < 0.25:
+            # several levels in one call (up to 4^5 or 5 x 4^4 descendants), then one of them
+            j = ctx.rnd.randint(2, min(5 if cr >= 0 else 3, depth - cr))
+            kids = a5.cell_to_children(cur, cr + j)
+            cur = kids[ctx.rnd.randrange(len(kids))]
+            cr += j
+        else:
+            kids = a5.cell_to_children(cur)
+            cur = kids[choose(len(kids))]
+            cr += 1
         v = centre_vec(a5, geo, cur)
         for (ac, ar, av) in chain:
             d = geo.ang(v, av) / geo.width(ar)
@@ -168,7 +177,7 @@ def run_shard(spec, ctx):
             c = gen.cell_by_path(a5, face, None if r == 0 else seg, gen.digits_pattern(rnd, max(0, r - 1)))
             mode = rnd.random()
             if mode < 0.5:
-                run_path(a5, geo, c, r, ctx, 'random', lambda k: rnd.randrange(k))
+                run_path(a5, geo, c, r, ctx, 'random', lambda k: rnd.randrange(k), jumps=True)
             elif mode < 0.75:
                 fixed = rnd.randrange(4)
                 run_path(a5, geo, c, r, ctx, 'constant_digit', lambda k: min(fixed, k - 1))
@@ -181,6 +190,28 @@ def run_shard(spec, ctx):
                     return min(pat[st['i'] % 2], k - 1)
                 run_path(a5, geo, c, r, ctx, 'alternating', ch)
         ctx.sample({'start': c, 'r': r})
+    elif spec['part'] == 'families':
+        # cells that share a long digit tail and differ only in their leading digit(s) (and the same tail in other segments),
+        # evaluated back to back against their coarse ancestors
+        for n in range(spec['n']):
+            rr = rnd.choice((29, 29, 28, 28, rnd.randint(8, 27)))
+            tail = gen.digits_pattern(rnd, rr - 2)
+            fams = []
+            for _ in range(2):
+                face, seg = rnd.randrange(12), rnd.randrange(5)
+                for d0 in range(4):
+                    fams.append(gen.cell_by_path(a5, face, seg, [d0] + tail))
+            for dcell in fams:
+                dv = centre_vec(a5, geo, dcell)
+                for ar in sorted({1, 2, 3, rnd.randint(3, max(3, rr - 1))}):
+                    anc = a5.cell_to_parent(dcell, ar)
+                    d = geo.ang(dv, centre_vec(a5, geo, anc)) / geo.width(ar)
+                    ctx.case((anc, dcell))
+                    ctx.maxi('descendant_drift_w', d, {'ancestor': anc, 'descendant': dcell, 'r': ar, 'rd': rr})
+                    if d > 1.5:
+                        ctx.fail('descendant_drift', {'ancestor': anc, 'descendant': dcell, 'r': ar, 'rd': rr, 'cls': 'family'}, drift_w=d)
+            ctx.count('families')
+        ctx.sample({'family_of': fams[0], 'r': rr})
     elif spec['part'] == 'beam':
         for n in range(spec['n']):
             r = rnd.randint(0, 28)
